@@ -587,3 +587,170 @@ def obtain(h):
             if (qs[i] == qs[j]) != same or (same and hash(qs[i]) != hash(qs[j])):
                 return {"reproduced": True, "call": "requests %d and %d" % (i, j), "observed": "equal=%s" % (qs[i] == qs[j]), "expected": "equal=%s with equal hashes" % same}
     return {"reproduced": False}
+
+
+# ------------------------------------------------------------------------------------------------
+# registration histories (C14 / C15): WF after every step, rejected calls change nothing, and a
+# database that answered queries in between reports the same as a fresh one
+
+
+def _snapshot(db):
+    U = {u: (i.quantity_type, i.name, i.default_category) for u, i in db.unit_to_unit_info.items()}
+    Q = {q: [i.unit for i in l] for q, l in db.quantity_types.items()}
+    C = {}
+    for c, ci in db.categories_to_quantity_types.items():
+        C[c] = (ci.quantity_type, ci.default_unit, None if ci.valid_units is None else list(ci.valid_units), sorted(ci.valid_units_set), ci.default_value, ci.min_value, ci.max_value, ci.is_min_exclusive, ci.is_max_exclusive)
+    return {"U": U, "Q": Q, "C": C}
+
+
+def _wf(db):
+    """violations of WF as text"""
+    bad = []
+    U, Q, C = db.unit_to_unit_info, db.quantity_types, db.categories_to_quantity_types
+    for u, i in U.items():
+        if i.unit != u or not any(x is i for x in Q.get(i.quantity_type, [])):
+            bad.append("W1: unit %r not listed in its type" % u)
+    for q, l in Q.items():
+        syms = [i.unit for i in l]
+        if len(set(syms)) != len(syms) or any(U.get(i.unit) is not i or i.quantity_type != q for i in l):
+            bad.append("W1: list of %r" % q)
+        if not l:
+            bad.append("W2: %r has no unit" % q)
+        else:
+            for x in (0.0, 1.0, -2.5):
+                if l[0].tobase(x) != x or l[0].frombase(x) != x:
+                    bad.append("W2: first-listed unit %r of %r is not an identity" % (l[0].unit, q))
+                    break
+    for c, ci in C.items():
+        us = [i.unit for i in Q.get(ci.quantity_type, [])]
+        if ci.quantity_type not in Q or ci.default_unit not in us:
+            bad.append("W3: category %r default unit %r / type %r" % (c, ci.default_unit, ci.quantity_type))
+        if ci.valid_units is not None and any(v not in us for v in ci.valid_units):
+            bad.append("W3: category %r valid units" % c)
+        if ci.valid_units_set != set(ci.valid_units or []):
+            bad.append("W3: category %r valid_units_set" % c)
+        v = ci.default_value
+        if ci.min_value is not None and not (v > ci.min_value if ci.is_min_exclusive else v >= ci.min_value):
+            bad.append("W3: category %r default %r below min %r" % (c, v, ci.min_value))
+        if ci.max_value is not None and not (v < ci.max_value if ci.is_max_exclusive else v <= ci.max_value):
+            bad.append("W3: category %r default %r above max %r" % (c, v, ci.max_value))
+    return bad
+
+
+def _reports(db):
+    """what the database reports through its query API"""
+    out = {}
+    for q in sorted(db.quantity_types):
+        out[("units", q)] = list(db.GetUnits(q))
+        out[("base", q)] = db.GetBaseUnit(q)
+    for c in sorted(db.categories_to_quantity_types):
+        try:
+            out[("valid", c)] = list(db.GetValidUnits(c))
+        except Exception as e:
+            out[("valid", c)] = type(e).__name__
+        out[("default", c)] = db.GetDefaultUnit(c)
+        for u in sorted(db.unit_to_unit_info):
+            try:
+                db.CheckCategoryUnit(c, u)
+                ok = True
+            except Exception:
+                ok = False
+            out[("check", c, u)] = ok
+    for u in sorted(db.unit_to_unit_info):
+        out[("defcat", u)] = db.GetDefaultCategory(u)
+    return out
+
+
+def _histories():
+    """lists of (method name, args, kwargs); accepted or rejected"""
+    f2, t2 = (lambda x: x / 100.0), (lambda x: x * 100.0)
+    H = []
+    base = [
+        ("AddUnitBase", ("length", "meters", "m"), {}),
+        ("AddUnit", ("length", "centimeters", "cm", "%f * 100.0", "%f / 100.0"), {}),
+        ("AddUnitBase", ("time", "seconds", "s"), {}),
+        ("AddUnit", ("time", "minutes", "min", "%f / 60.0", "%f * 60.0"), {}),
+        ("AddCategory", ("length", "length"), {}),
+        ("AddCategory", ("time", "time"), {}),
+    ]
+    H.append(("plain", base))
+    H.append(("late-unit", base + [("AddCategory", ("well length",), {"from_category": "length"}), ("AddUnit", ("length", "kilometers", "km", "%f / 1000.0", "%f * 1000.0"), {})]))
+    H.append(("unit-before-base", [("AddUnit", ("length", "centimeters", "cm", "%f * 100.0", "%f / 100.0"), {}), ("AddCategory", ("length", "length"), {})]))
+    H.append(("rejected", base + [
+        ("AddUnit", ("time", "meters again", "m", "%f", "%f"), {}),
+        ("AddUnitBase", ("length", "centimeters", "cm"), {}),
+        ("AddCategory", ("length", "time"), {}),
+        ("AddCategory", ("depth", "length"), {"valid_units": ["m", "s"]}),
+        ("AddCategory", ("depth", "length"), {"default_unit": "s"}),
+        ("AddCategory", ("depth", "nothing"), {}),
+        ("AddCategory", ("depth", "length"), {"min_value": 0.0, "max_value": 10.0, "default_value": 50.0}),
+        ("AddCategory", ("shallow", "length"), {"max_value": 10.0, "default_value": 50.0}),
+        ("AddCategory", ("deep", "length"), {"min_value": 10.0, "default_value": 5.0}),
+        ("AddCategory", ("x", "length"), {"min_value": 5.0, "max_value": 1.0}),
+        ("AddCategory", ("y", "length"), {"min_value": 0.0, "is_min_exclusive": True}),
+        ("AddCategory", ("z",), {"from_category": "nothing"}),
+    ]))
+    H.append(("limits", base + [
+        ("AddCategory", ("depth", "length"), {"valid_units": ["m"], "min_value": 0.0, "max_value": 15.0, "default_value": 5.0}),
+        ("AddCategory", ("shallower",), {"from_category": "depth", "max_value": 1.0}),
+        ("AddCategory", ("depth copy",), {"from_category": "depth"}),
+        ("AddCategory", ("only max", "length"), {"max_value": -3.0}),
+        ("AddCategory", ("only min", "length"), {"min_value": 7.0}),
+        ("AddCategory", ("depth", "length"), {"override": True, "default_unit": "cm"}),
+    ]))
+    return H
+
+
+@probe("registry_history")
+def registry_history(h):
+    from barril.units.unit_database import UnitDatabase
+    from barril.units import Scalar
+
+    known_w2 = "first-listed unit"
+    for name, steps in _histories():
+        db = UnitDatabase()
+        fresh_steps = []
+        UnitDatabase.PushSingleton(db)
+        try:
+            for k, (meth, args, kw) in enumerate(steps):
+                before = _snapshot(db)
+                kw2 = {a: (list(b) if isinstance(b, list) else b) for a, b in kw.items()}
+                try:
+                    getattr(db, meth)(*args, **kw2)
+                    accepted = True
+                except Exception as e:
+                    accepted = False
+                    if _snapshot(db) != before:
+                        return {"reproduced": True, "call": "history %s step %d: %s%r %r rejected with %r" % (name, k, meth, args, kw, e), "observed": "registry changed", "expected": "registry exactly as before"}
+                if accepted:
+                    fresh_steps.append((meth, args, kw))
+                bad = _wf(db)
+                if h.get("ignore_unit_before_base"):
+                    bad = [b for b in bad if known_w2 not in b or name != "unit-before-base"]
+                if bad:
+                    return {"reproduced": True, "call": "history %s after step %d: %s%r %r" % (name, k, meth, args, kw), "observed": bad[:3], "expected": "well-formed registry"}
+                # queries in between (including failing ones) must not influence later answers
+                _reports(db)
+                for c in list(db.categories_to_quantity_types) + ["depth", "well length", "shallower", "only max"]:
+                    for u in ("km", "m", "cm", "s", "min", "h"):
+                        try:
+                            db.CheckCategoryUnit(c, u)
+                        except Exception:
+                            pass
+                for c in list(db.categories_to_quantity_types):
+                    try:
+                        Scalar(c).GetValidUnits()
+                        Scalar(1.0, db.GetUnits(db.GetCategoryQuantityType(c))[-1], c).GetValidUnits()
+                    except Exception:
+                        pass
+            warm = _reports(db)
+        finally:
+            UnitDatabase.PopSingleton()
+        db2 = UnitDatabase()
+        for meth, args, kw in fresh_steps:
+            getattr(db2, meth)(*args, **{a: (list(b) if isinstance(b, list) else b) for a, b in kw.items()})
+        cold = _reports(db2)
+        if warm != cold:
+            diff = [k for k in cold if warm.get(k) != cold[k]][:3]
+            return {"reproduced": True, "call": "history %s: reports after interleaved queries vs a fresh database" % name, "observed": {repr(k): warm.get(k) for k in diff}, "expected": {repr(k): cold[k] for k in diff}}
+    return {"reproduced": False}
